@@ -63,7 +63,20 @@ UNICODE_WS = ["\x1c", "\x1d", "\x1e", "\x1f", "\x0b", "\x0c", "\x85", "\xa0", "\
 WS_ONLY = ["\x1c\n \x1d\t\n\x1e\x1f\n", "\x1c", "\x1f\n", " \x1e ", "\n\x1d\n", "\x1c\x1d\x1e\x1f"] + UNICODE_WS[4:] + [
     " " + c + "\n\t" + c + " \n" for c in UNICODE_WS]
 
-FIXED_BAD = COMMENT_ONLY + WS_ONLY[:8] + [
+# invalid files whose ONLY syntax errors sit in / after / beside a trailing `if __name__ == "__main__":` block
+# (Python-2 prints in a self-test): under BOTH strategies the content is not valid Python
+GUARD_INVALID = [
+    "x = 1\nif __name__ == '__main__':\n    print \"x\"\n",
+    'def f():\n    return 1\nif __name__ == "__main__":\n    print f()\n    exec "1"\n',
+    'if __name__ == "__main__":\n    print "self-test"\n',
+    'x = 1\nif __name__ == "__main__": print "x"\n',
+    'x = 1\nif __name__ == "__main__":\n    pass\nelse:\n    print "imported"\n',
+    'import os\nif __name__ == "__main__":\n    main()\nprint "after"\n',
+    'y = 2\nif __name__ == "__main__":\n    for i in range(3):\n        print i\n\n',
+    'def g(n):\n    return n\n\nif __name__   ==   "__main__"  :\n    print g(1),\n    x = = 2\n',
+]
+
+FIXED_BAD = COMMENT_ONLY + GUARD_INVALID[:3] + WS_ONLY[:8] + GUARD_INVALID[3:] + [
     "x = (1,\n", 'x = """abc\n', "if x:\n        y = 1\n    z = 2\n", "x = 1\x00\n", "", "   \n\n", "\t",
     "x = 1\x0c\n", "def (:\n", "x = 'a\n", "\\", "x = 1 \\", "if x:\n\ty=1\n        z=2\n", "\ufeffx = 1\n",
     "x = $\n", "x = 1\r y = 2\n", "x = 0777\n", "a = 1\n  b = 2\n", "\x00", "\n", "pass\n", "x = )\n", "]\n",
@@ -80,6 +93,12 @@ def mutate(rng, text):
         # only white space of some Unicode kind (information separators included), alone or mixed with blanks
         k = rng.randint(1, 6)
         return "".join(rng.choice(UNICODE_WS + [" ", "\n", "\t", "\n"]) for _ in range(k)) if rng.random() < 0.6 else rng.choice(WS_ONLY), "unicode_ws"
+    if rng.random() < 0.08:
+        # a valid program followed by a main guard whose block (or else part, or what follows it) is Python 2
+        tail = rng.choice(['    print "done"\n', '    print f(1)\n    exec "x"\n', '    pass\nelse:\n    print "imported"\n',
+                           '    main()\nprint "after"\n', '    for i in range(3):\n        print i\n'])
+        q = rng.choice(['"', "'"])
+        return text.rstrip("\n") + f"\nif __name__ == {q}__main__{q}:\n" + tail, "guard"
     if kind == "comments":
         # only ordinary comments (and blank lines) are left: parses to an empty module
         how = rng.choice(["all", "all", "blanks", "fixed", "code_removed"])
@@ -160,6 +179,60 @@ def only_importer_deviation(rec_with, rec_without, badset):
     ta = {k: v for k, v in rec_with["taxa"].items() if not k.startswith("import/")}
     tb = {k: v for k, v in rec_without["taxa"].items() if not k.startswith("import/")}
     return ta == tb
+
+
+REPAIR_SIG = ("full cleaning turns a file whose raw content is not valid Python into a valid (or empty) program, where "
+              "--cleanup none reports meta/ast/<Error>: tab normalisation, a dangling backslash at the end of the file, removed "
+              "comment lines, or control / Unicode separator characters dropped by the tokenizer")
+ODD_CHARS = set("\x00\x0b\x0c\r\x1c\x1d\x1e\x1f\x85\u2028\u2029\ufeff")
+
+
+def raw_class(text):
+    try:
+        tree = ast.parse(text)
+        return "empty" if not tree.body else "valid"
+    except (SyntaxError, ValueError, RecursionError) as e:
+        return type(e).__name__
+
+
+def repair_shape(raw):
+    """The known shapes (unchanged /repo, recorded finding F48) in which legitimate passes of the full cleaning make an
+    invalid content valid. Anything else is not excused."""
+    if "\t" in raw:
+        return "tab"
+    if raw.rstrip(" \n").endswith("\\"):
+        return "backslash-eof"
+    if "#" in raw:
+        return "comment-lines"
+    if ODD_CHARS & set(raw):
+        return "control-or-separator-character"
+    return None
+
+
+def raw_content_oracle(ctx, files_read, by_strategy, files):
+    """The property speaks of the file's CONTENT: if the raw text is not valid Python and `--cleanup none` reports it as
+    meta/ast/<Error>, `--cleanup full` must not report a valid (or empty) program."""
+    jn, jf = by_strategy.get("none"), by_strategy.get("full")
+    if jn is None or jf is None:
+        return
+    for p, raw in files_read.items():
+        if raw_class(raw) in ("valid", "empty") or p not in jn["programs"] or p not in jf["programs"]:
+            continue
+        tn, tf = list(jn["programs"][p]["taxa"]), list(jf["programs"][p]["taxa"])
+        is_err = lambda t: len(t) == 1 and t[0].startswith("meta/ast/") and t[0] != "meta/ast/EmptyProgramError"
+        if is_err(tn) and not is_err(tf):
+            shape = repair_shape(raw)
+            ctx.dist(f"raw-oracle.repaired.{shape or 'UNKNOWN'}")
+            ctx.violations.append({
+                "what": f"{p}: the raw content is not valid Python ({raw_class(raw)}), --cleanup none reports {tn[0]}, "
+                        f"--cleanup full reports {'an empty program' if tf == ['meta/ast/EmptyProgramError'] else 'a valid program'}",
+                "signature": REPAIR_SIG if shape else None,
+                "replay": {"kind": "raw-content", "files": {p: files[p]}, "shape": shape,
+                           "impl": {"cleanup_none": tn, "cleanup_full": tf[:8], "stored_full": jf["programs"][p]["source"][:300]},
+                           "model": "the externals are recorded on the stored text: the model cannot see this",
+                           "spec": f"single taxon meta/ast/{raw_class(raw)} under both strategies (content that is not valid Python)"}})
+        else:
+            ctx.count("raw-content-oracle", (p, raw), nontrivial=True)
 
 
 def exc_info(e):
@@ -488,6 +561,10 @@ def stream_dirs(ctx, drv, orc, n_dirs):
         ({"a.py": "import b\nx = 1\n", "b.py": "import a\n", "c.py": "def (:)\n"}, ["c.py"]),
         ({"a.py": "x = $\n"}, ["a.py"]),
         ({"a.py": "x = 1\n", "b.py": "# just a comment\n"}, ["b.py"]),
+        ({"a.py": "x = 1\n", "selftest.py": GUARD_INVALID[0]}, ["selftest.py"]),
+        ({"a.py": GUARD_INVALID[1], "b.py": GUARD_INVALID[2], "c.py": GUARD_INVALID[3], "d.py": "import a\n"}, ["a.py", "b.py", "c.py"]),
+        ({"a.py": GUARD_INVALID[4], "b.py": GUARD_INVALID[5], "c.py": GUARD_INVALID[6], "d.py": GUARD_INVALID[7], "e.py": "z = 0\n"},
+         ["a.py", "b.py", "c.py", "d.py"]),
         # valid programs whose flattening fails, next to normal files (fix d1e6a10)
         ({"a.py": "x = 1\n", "big.py": UNFLATTENABLE[0]}, ["big.py"]),
         ({"a.py": "import os\nprint(os.sep)\n", "chain.py": UNFLATTENABLE[3], "bits.py": UNFLATTENABLE[1], "deep.py": UNFLATTENABLE[6]},
@@ -528,11 +605,18 @@ def stream_dirs(ctx, drv, orc, n_dirs):
             files, bad, kinds = gen_dir(ctx.rng)
         for k in kinds:
             ctx.dist(f"mutation.{k}")
-        for strategy in ("full", "none"):
+        by_strategy, files_read = {}, {}
+        for strategy in ("full", "none", "oracle"):
+            if strategy == "oracle":
+                raw_content_oracle(ctx, files_read, by_strategy, files)
+                break
             tag = f"d{i}-{strategy}"
             root = base / tag / "progs"
             write_files(root, files)
+            files_read = read_back(root, files)
             v = judge(ctx, drv, orc, files, root, root.parent, strategy)
+            if "json" in v:
+                by_strategy[strategy] = v["json"]
             key = (json.dumps(files, sort_keys=True), strategy)
             nontrivial = any(x["parse"] not in ("valid",) for x in v["info"])
             ctx.count("directories", key, nontrivial=nontrivial)
@@ -758,7 +842,7 @@ def run(ctx):
                                    "replay": {"kind": "class", "text": o["text"], "impl": o["exc"],
                                               "model": "ParseCaught is an assumption", "spec": "SyntaxError/ValueError"}})
         stream_tag(ctx, drv, orc, 50 if quick else 400)
-        stream_dirs(ctx, drv, orc, 120 if quick else 1200)
+        stream_dirs(ctx, drv, orc, 100 if quick else 1200)
         if orc.prepare_errors:
             ctx.notes.append({"get_program raised on hint-free texts": orc.prepare_errors[:5]})
             if not ctx.violations:
